@@ -7,7 +7,9 @@ from vf.driver import OUTCOME_TABLE, first_line
 
 ID = 'C02'
 LEVEL = 'exploration'
-RULE = ('cases = (ending scenario x configured status x output mode) enumerated exhaustively, each with several action '
+RULE = ('cases = (ending scenario x configured status x output mode) enumerated exhaustively, the status configured in '
+        'the case, in the suite that applies to it (exactly.suite beside it / --suite) or in both (the case wins), '
+        'each with several action '
         'exit codes / outputs (core fixed list, plus seeded others); class key = (ending, status, mode, identifier, '
         'exit-code bucket); a case is non-trivial when the CLI returned and its (identifier, code, stream) triple was '
         'compared with the hard-coded documented table')
@@ -21,6 +23,7 @@ MIN_OBS = {'quick': {'evaluations': 400, 'c02.table_compared': 400, 'c02.subproc
 
 STATUSES = [None, 'PASS', 'FAIL', 'SKIP']
 MODES = ['normal', 'keep', 'act']
+VIAS = ['case', 'suite-beside', 'case', 'both-beside', 'suite-option', 'both-option']
 ENDINGS = [
     'pass', 'fail_first', 'fail_last', 'fail_only',
     'syntax_instr', 'syntax_unknown_instr', 'unknown_phase', 'act_syntax',
@@ -55,8 +58,14 @@ def cases(tier, seed):
             rcs.append(rng.randrange(256))
         for j, rc in enumerate(rcs):
             out, err = OUTPUTS[(idx + j) % len(OUTPUTS)]
+            # where the status is configured: the case's own [conf]; the [conf] of the suite that applies to the case
+            # (exactly.suite beside it, or --suite FILE); or both, where the case's own setting comes last and wins
+            via = 'case'
+            if status is not None and ending not in ('suite_syntax_error', 'suite_missing_include', 'unknown_option',
+                                                     'no_case_file'):
+                via = VIAS[(idx + j) % len(VIAS)]
             yield {'ending': ending, 'status': status, 'mode': mode, 'act_rc': rc, 'act_out': out, 'act_err': err,
-                   'k': 1 + (idx + j) % 3,
+                   'k': 1 + (idx + j) % 3, 'via': via,
                    'xcheck': (idx % (97 if tier == 'quick' else 19) == 0 and j == 0)}
 
 
@@ -65,8 +74,16 @@ def build(case, probe_path):
     """-> (files, argv_before_file, case_file_name)"""
     e = case['ending']
     L = []
+    via = case.get('via', 'case')
+    suite_conf = None
     if case['status'] is not None:
-        L += ['[conf]', 'status = ' + case['status']]
+        if via in ('case', 'both-beside', 'both-option'):
+            L += ['[conf]', 'status = ' + case['status']]
+        if via.startswith('suite'):
+            suite_conf = case['status']
+        elif via.startswith('both'):
+            others = [x for x in ('PASS', 'FAIL', 'SKIP') if x != case['status']]
+            suite_conf = others[case['act_rc'] % 2]
     act_line = '%s - %s' % (probe_path, probe.ctrl(rc=case['act_rc'], out=case['act_out'], err=case['act_err']))
     setup, act, ba, as_, cl = [], [act_line], [], [], []
     files = {}
@@ -161,6 +178,13 @@ def build(case, probe_path):
         files[name] = text
     if e == 'unknown_option':
         argv = ['--no-such-option']
+    if suite_conf is not None:
+        suite_text = '[conf]\nstatus = %s\n' % suite_conf
+        if via.endswith('beside'):
+            files['exactly.suite'] = suite_text
+        else:
+            files['conf.suite'] = suite_text
+            argv = argv + ['--suite', 'conf.suite']
     return files, argv, name
 
 
@@ -221,7 +245,9 @@ def run_case(case, ctx):
     viol = []
 
     def bad(msg):
-        viol.append({'what': 'C02 %s/%s/%s: %s' % (case['ending'], case['status'], mode, msg),
+        viol.append({'what': 'C02 %s/%s%s/%s: %s' % (case['ending'], case['status'],
+                                                      '' if case.get('via', 'case') == 'case' else '(status via %s)' % case['via'],
+                                                      mode, msg),
                      'detail': {'expected': exp, 'observed': r.brief()}})
 
     inconc = []
@@ -322,7 +348,8 @@ def run_case(case, ctx):
     if ident_seen not in OUTCOME_TABLE:
         ident_seen = '-'
     rc_bucket = 'rc=act' if (exp['kind'] == 'passthrough') else 'rc=%s' % r.rc
-    res = {'classes': [(case['ending'], str(case['status']), mode, ident_seen, rc_bucket)], 'viol': viol,
+    res = {'classes': [(case['ending'], str(case['status']), case.get('via', 'case'), mode, ident_seen, rc_bucket)],
+           'viol': viol,
            'inconclusive': inconc}
     if case['ending'] in ('fail_last', 'hard_cleanup') and case['status'] == 'FAIL':
         res['sample'] = {'case': case, 'argv': full_argv[:-1] + ['<case>'], 'case_text': files[name]
